@@ -10,6 +10,7 @@ use crate::hlp::LogEntry;
 use crate::isa::*;
 use crate::refvm::Outcome;
 use crate::report::Report;
+use crate::sys;
 use crate::util::Rng;
 use crate::Args;
 use serde_json::json;
@@ -278,4 +279,106 @@ pub fn run(a: &Args, rep: &mut Report) {
         batch.clear();
     }
     INTERP_FAMILY.store(0, std::sync::atomic::Ordering::Relaxed);
+    if a.shard % 4 == 0 && !cfg!(miri) {
+        concurrent_helpers(rep, &mut rng, if q { 150 } else { 1500 });
+    }
+}
+
+static SLOW_CALLS: std::sync::atomic::AtomicU64 = std::sync::atomic::AtomicU64::new(0);
+/// A deliberately slow, pure helper: many threads are inside it at the same time.
+fn slow_helper(a1: u64, a2: u64, a3: u64, a4: u64, a5: u64) -> u64 {
+    SLOW_CALLS.fetch_add(1, std::sync::atomic::Ordering::Relaxed);
+    let t0 = std::time::Instant::now();
+    while t0.elapsed().as_micros() < 40 {
+        std::hint::spin_loop();
+    }
+    crate::hlp::value(5, [a1, a2, a3, a4, a5])
+}
+
+/// 24 threads (more than any fixed limit of 8 or 16 inside the crate), each with its own VM and
+/// engine, all calling a slow helper at the same time: every call must reach the registered
+/// function with its own arguments and return its value.
+fn concurrent_helpers(rep: &mut Report, rng: &mut Rng, iters: usize) {
+    const T: usize = 24;
+    let id = 3u32;
+    let progs: Vec<(Vec<u8>, [u64; 5], u64)> = (0..T)
+        .map(|t| {
+            let args = [rng.below(1 << 31), rng.below(1 << 31), t as u64, rng.below(1 << 31), 7];
+            let mut v: Vec<Insn> = Vec::new();
+            for (i, x) in args.iter().enumerate() {
+                v.push(Insn::new(MOV64_IMM, i as u8 + 1, 0, 0, *x as i32));
+            }
+            v.push(Insn::new(MOV64_IMM, 6, 0, 0, 0x600 + t as i32));
+            v.push(Insn::new(CALL, 0, 0, 0, id as i32));
+            v.push(Insn::new(ADD64_REG, 0, 6, 0, 0));
+            v.push(Insn::new(EXIT, 0, 0, 0, 0));
+            (encode_prog(&v), args, crate::hlp::value(5, args).wrapping_add(0x600 + t as u64))
+        })
+        .collect();
+    let ends = sys::run_batch(1, 600, 600, |_i, out| {
+        crate::engines::hooks::unlimited();
+        let bad: std::sync::Mutex<Vec<String>> = std::sync::Mutex::new(Vec::new());
+        let barrier = std::sync::Barrier::new(T);
+        std::thread::scope(|sc| {
+            for (t, (prog, _args, want)) in progs.iter().enumerate() {
+                let (bad, barrier) = (&bad, &barrier);
+                sc.spawn(move || {
+                    let engine = [Engine::Interp, Engine::Interp, Engine::Jit, if cfg!(feature = "std") { Engine::Cranelift } else { Engine::Interp }][t % 4];
+                    let r = (|| -> Result<(), String> {
+                        let mut vm = crate::engines::Vm::new(Kind::NoData, Some(prog), (0, 8))?;
+                        vm.register_helper(id, slow_helper)?;
+                        match engine {
+                            Engine::Jit => {
+                                #[cfg(not(any(feature = "std", feature = "stdlite")))]
+                                {
+                                    let _ = vm.set_jit_exec_memory(crate::exec::exec_memory(1 << 16));
+                                }
+                                vm.jit_compile()?
+                            }
+                            #[cfg(feature = "std")]
+                            Engine::Cranelift => vm.cl_compile()?,
+                            _ => {}
+                        }
+                        barrier.wait();
+                        for k in 0..iters {
+                            let none = (std::ptr::null_mut(), 0);
+                            let got = match engine {
+                                Engine::Jit => unsafe { vm.exec_jit(none, none) },
+                                #[cfg(feature = "std")]
+                                Engine::Cranelift => vm.exec_cl(none, none),
+                                _ => vm.exec(none, none),
+                            };
+                            if got != Ok(*want) {
+                                return Err(format!("thread {t} ({}) execution {k}: {:x?}, expected Ok({want:#x})", engine.name(), got));
+                            }
+                        }
+                        Ok(())
+                    })();
+                    if let Err(e) = r {
+                        bad.lock().unwrap().push(e);
+                    }
+                });
+            }
+        });
+        let bad = bad.into_inner().unwrap();
+        out.extend_from_slice(&SLOW_CALLS.load(std::sync::atomic::Ordering::Relaxed).to_le_bytes());
+        out.extend_from_slice(bad.join("\n").as_bytes());
+    });
+    rep.set("concurrent_workloads", "24 threads inside a slow helper");
+    match &ends[0] {
+        sys::CaseEnd::Done(b) if b.len() >= 8 => {
+            let calls = u64::from_le_bytes(b[0..8].try_into().unwrap());
+            rep.add("concurrent_helper_calls", calls);
+            let msg = String::from_utf8_lossy(&b[8..]).to_string();
+            if !msg.is_empty() {
+                rep.violation("C08:concurrent:helper-call", format!("{T} threads, each with its own VM, calling a registered helper at the same time: {}", msg.lines().next().unwrap_or("")), json!({"kind": "concurrent-session", "what": "helpers", "deviations": msg.lines().take(5).collect::<Vec<_>>()}));
+            } else if calls != (T * iters) as u64 {
+                rep.violation("C08:concurrent:helper-call-count", format!("{} helper invocations for {} executions", calls, T * iters), json!({"kind": "concurrent-session", "what": "helpers"}));
+            }
+        }
+        sys::CaseEnd::Died(sg, _) => rep.violation(&format!("C08:concurrent:signal-{}", sys::signame(*sg)), format!("{T} threads calling helpers: killed by {}", sys::signame(*sg)), json!({"kind": "concurrent-session", "what": "helpers"})),
+        sys::CaseEnd::Done(_) => rep.inconclusive("concurrent helpers: short record".into()),
+        sys::CaseEnd::CpuTimeout => rep.inconclusive("concurrent helpers: cpu limit".into()),
+        sys::CaseEnd::Inconclusive(x) => rep.inconclusive(format!("concurrent helpers: {x}")),
+    }
 }
